@@ -181,3 +181,84 @@ func (p *Prog) ForwardLoadThroughCall(load ssa.Value) ([]ssa.Value, *ssa.Functio
 	}
 	return vals, bestCallee, true
 }
+
+// ConstructorCall returns the call and the callee when v is the result of a
+// call of a module function that returns, on every non-nil return, an object
+// it allocated itself, together with those allocations.
+func ConstructorCall(v ssa.Value) (*ssa.Call, *ssa.Function, []*ssa.Alloc) {
+	srcs := ResolveAll(v)
+	if len(srcs) != 1 {
+		return nil, nil, nil
+	}
+	var call *ssa.Call
+	idx := 0
+	switch x := srcs[0].(type) {
+	case *ssa.Call:
+		call = x
+	case *ssa.Extract:
+		call, _ = x.Tuple.(*ssa.Call)
+		idx = x.Index
+	}
+	if call == nil {
+		return nil, nil, nil
+	}
+	callee := call.Call.StaticCallee()
+	if callee == nil || callee.Blocks == nil || !InModule(callee) {
+		return nil, nil, nil
+	}
+	var allocs []*ssa.Alloc
+	for _, ret := range Returns(callee) {
+		if idx >= len(ret.Results) {
+			return nil, nil, nil
+		}
+		for _, r := range ResolveAll(RetVal(ret, idx)) {
+			if IsNilConst(r) {
+				continue
+			}
+			al, isAlloc := r.(*ssa.Alloc)
+			if !isAlloc || al.Parent() != callee {
+				return nil, nil, nil
+			}
+			allocs = append(allocs, al)
+		}
+	}
+	if len(allocs) == 0 {
+		return nil, nil, nil
+	}
+	return call, callee, allocs
+}
+
+// ForwardLoadCtor resolves a load of x.f, where x was just obtained from a
+// constructor helper (ConstructorCall) and no store to x.f in the loading
+// function lies between, to what the helper stored into the field of the
+// object it returns. The values belong to the helper; call is the call site.
+func ForwardLoadCtor(load ssa.Value) ([]ssa.Value, *ssa.Call, bool) {
+	u, isLoad := load.(*ssa.UnOp)
+	if !isLoad || u.Op != token.MUL {
+		return nil, nil, false
+	}
+	fa, isFA := u.X.(*ssa.FieldAddr)
+	if !isFA {
+		return nil, nil, false
+	}
+	call, callee, allocs := ConstructorCall(fa.X)
+	if call == nil {
+		return nil, nil, false
+	}
+	field := fieldName(fa.X.Type(), fa.Field)
+	// a store in the loading function that may reach the load makes the helper's value stale
+	for _, st := range StoresToField(u.Parent(), fa.X, field) {
+		if st.Parent() == u.Parent() && !Dominates(u, st) {
+			return nil, nil, false
+		}
+	}
+	var vals []ssa.Value
+	for _, al := range allocs {
+		sts := StoresToField(callee, al, field)
+		if len(sts) != 1 {
+			return nil, nil, false
+		}
+		vals = append(vals, sts[0].Val)
+	}
+	return vals, call, true
+}
